@@ -280,7 +280,7 @@ func GenSession(r *rand.Rand, idx int) Session {
 		s.ReadDelayMs = []int{0, 10, 20, 20, 30, 30, 40, 50}[r.Intn(8)]
 		if s.ReadDelayMs > 0 {
 			// every transport read costs one read delay: only large reads
-			s.Seg = []devsim.Seg{{Mode: "whole"}, {Mode: "fixed", Size: 4096}, {Mode: "mix", Size: 4096}}[r.Intn(3)]
+			s.Seg = []devsim.Seg{{Mode: "whole"}, {Mode: "fixed", Size: 4096}, {Mode: "whole"}}[r.Intn(3)]
 		}
 	default:
 		s.Seg = segs[r.Intn(len(segs))]
@@ -293,12 +293,12 @@ func GenSession(r *rand.Rand, idx int) Session {
 	}
 	if s.Echo && r.Intn(2) == 0 {
 		s.NoEchoMark = true
-		if s.Profile != "long" && r.Intn(4) != 0 {
+		if s.Profile != "long" && s.ReadDelayMs == 0 && r.Intn(4) != 0 {
 			// large reads, so that echo tail and reply really share a read
 			s.Seg.Mode, s.Seg.Size = []string{"whole", "fixed", "mix", "mix"}[r.Intn(4)], []int{4096, 4096, 100, 4096}[r.Intn(4)]
 		}
 	}
-	if s.NoEchoMark && r.Intn(3) == 0 {
+	if s.NoEchoMark && r.Intn(3) != 0 {
 		s.HoldHelloTail = 1 + r.Intn(8)
 	}
 	maxFill := 600
@@ -366,7 +366,7 @@ func GenSession(r *rand.Rand, idx int) Session {
 			}
 		}
 		big := maxFill == 600 && r.Intn(14) == 0
-		if s.HoldHelloTail > 0 && reqs == 0 && c.Plan != "local" && !(s.Seg.Mode == "fixed" && s.Seg.Size < 17) && r.Intn(2) == 0 {
+		if s.HoldHelloTail > 0 && reqs == 0 && c.Plan != "local" && !(s.Seg.Mode == "fixed" && s.Seg.Size < 17) && r.Intn(4) != 0 {
 			// a first request larger than any read: its echo starts in the read that ends the echo of
 			// the client's hello and does not end there
 			c.Kind, c.Store = "edit-config", "candidate"
